@@ -56,6 +56,19 @@ META["C14"] = {
     "level_note": "trusts testing/synctest; tracer callbacks only read (Time) and record",
 }
 
+META["C02"] = {
+    "budget": {"quick": 25, "thorough": 600},
+    "rule": "one run = generated schema of 2..8 states with arbitrary Require/Add/Remove graphs (cycles, Add chains of any depth, Auto, Multi; relation density drawn per run) + a mutation history of Add/Remove/Set/Toggle over random subsets, driven by one goroutine, by handlers, or by two racing goroutines; every accepted transition is checked against the five post-conditions; non-trivial = the active set changed size; distinct = distinct (schema, before, mutation, after) sequences",
+    "components": {"real": MACHINE_REAL, "stub": []},
+    "assumptions": [
+        "the oracle is post-conditions only (no second resolver); clauses 3-5 are permissive wherever the statement does not say which state must hold the relation (candidate set K = Add-closure of before, called and after)",
+        "the exhaustive <=3-state enumeration of the quantifier is not reproduced (that is model checking); sampled instead",
+    ],
+    "probes": [],
+    "level_text": "seeded search over schemas and histories (the simulator contributes which active sets are reached and in which order, including from handlers and racing callers); Require closure and Remove consistency are checked verbatim after every accepted transition, Add closure and justification permissively",
+    "level_note": "trusts the recording tracer (StatesBefore, CalledStates, ActiveStates at TransitionEnd) and Machine.Schema() as the parsed schema",
+}
+
 NOT_YET = "check not built yet in this session (planned, see DESIGN.md section 5)"
 NOT_APPLICABLE = {
     "C19": "no schedule, clock, fault or multi-party behaviour: a static well-formedness scan of schema literals plus an exhaustive breadth-first enumeration of reachable active sets, i.e. bounded model checking, not deterministic simulation (DESIGN.md section 6)",
